@@ -21,7 +21,7 @@ Definition at12 : attrs := {| at_node := 1; at_pod := 2; at_tun := false |}.
 
 (* 1. One handle, two addresses, both confirmed leaks by the cache (node gone); the API justifies ordinal 0 only. *)
 Definition split_events : list event :=
-  [ECNodeApi 1 true; ECNodeSync 1 true;
+  [ECNodeApi 1 (Some true); ECNodeSync 1 (Some true);
    EBlock 1 (Some {| b_aff := AffHost 1; b_allocs := [mkBA 0 (Some 1) at11 1; mkBA 1 (Some 1) at11 2] |});
    EPod true 1 (Some {| p_node := 1; p_ips := [(1, 0)]; p_evicted := false |})].
 
@@ -62,7 +62,7 @@ Proof. vm_compute. reflexivity. Qed.
 
 (* 3. The last block: block 1 moves from node 1 to node 2 in one update; block 2 is node 1's only block. *)
 Definition last_events1 : list event :=
-  [EKNode 1 true; ECNodeApi 1 true; ECNodeSync 1 true; EKNode 2 true; ECNodeApi 2 true; ECNodeSync 2 true;
+  [EKNode 1 true; ECNodeApi 1 (Some true); ECNodeSync 1 (Some true); EKNode 2 true; ECNodeApi 2 (Some true); ECNodeSync 2 (Some true);
    EBlock 1 (Some {| b_aff := AffHost 1; b_allocs := [] |});
    EBlock 1 (Some {| b_aff := AffHost 2; b_allocs := [] |});
    EBlock 2 (Some {| b_aff := AffHost 1; b_allocs := [] |})].
